@@ -26,3 +26,105 @@ Example C06_nonvacuous :
   | inl _ => False
   end.
 Proof. vm_compute. split; reflexivity. Qed.
+
+(* ------------------------------------------------------------------------------------
+   Histories.  [writer_inv], [obs_safe], [ops_cost], [no_reset], [max_int] are defined in
+   proofs/WriterInv.v; [wf_pframe], [out_frame], [frame_bytes], [wf_writer], [op_wf],
+   [steps_of] in proofs/WriterFrameProofs.v; [c06_op], [exts_comp], [fresh_writer] in
+   proofs/WriterHistProofs.v. *)
+Require Import CipherProofs CheckProofs WriterInv WriterFrameProofs WriterHistProofs.
+
+(* (A) the size invariant: established by every constructor that returns ... *)
+Theorem C06_constructors_establish_invariant : forall d state op n masks w,
+  n + 14 <= max_int ->
+  (new_writer_buffer d state op n masks = inr w \/ new_writer_buffer_size d state op n masks = inr w \/
+   new_writer_size d state op n masks = inr w) ->
+  w_buflen w = w_rawlen w - reserve (w_state w) (w_rawlen w) /\
+  reserve (w_state w) (w_rawlen w) < w_rawlen w /\ len (w_buf w) <= w_buflen w /\
+  w_rawlen w <= max_int /\ w_err w <> Some WHang.
+Proof.
+  intros d state op n masks w Hn H.
+  assert (Hi: writer_inv w).
+  { destruct H as [H|[H|H]].
+    - eapply new_writer_buffer_inv; [|exact H]. lia.
+    - eapply new_writer_buffer_size_inv; [|exact H]. lia.
+    - eapply new_writer_size_inv; [|exact H]. exact Hn. }
+  destruct Hi; auto.
+Qed.
+Print Assumptions C06_constructors_establish_invariant.
+
+(* ... preserved by every operation except Reset; under it NO operation panics and no
+   loop of the model runs out of fuel (Write, Grow, ReadFrom terminate), for every history
+   whose sizes stay below 2^61: 28 + 4 * (buffered + sum of Write/ReadFrom/Grow sizes) <= MaxInt64 *)
+Theorem C06_no_panic_no_hang : forall ops w, writer_inv w -> no_reset ops = true ->
+  28 + 4 * (len (w_buf w) + ops_cost ops) <= max_int ->
+  Forall (fun o => o_panic o = None /\ o_err o <> Some WHang) (fst (run_wops ops w)) /\
+  writer_inv (snd (run_wops ops w)) /\ length (fst (run_wops ops w)) = length ops.
+Proof. exact run_wops_safe. Qed.
+Print Assumptions C06_no_panic_no_hang.
+
+(* (B) flushFragment makes exactly ONE destination write and it is one whole frame:
+   RFC header (opcode of the fragment, FIN as requested, RSV from the extensions, masked iff
+   client with the oracle key) followed by the payload = buffer (masked per RFC 6455 5.3) *)
+Theorem C06_flush_is_one_frame : forall fin w h1, writer_inv w -> wf_writer w ->
+  set_bits (w_exts w) (mkHeader fin 0 (w_opcode w) false zero_mask (Z.of_N (w_n w))) = Some h1 ->
+  let f := mkPF (mkHeader fin (h_rsv h1) (w_opcode w) (client_side (w_state w)) (w_key w) (Z.of_N (len (w_buf w))))
+                (if client_side (w_state w) then mask_spec (w_buf w) (w_key w) 0 else w_buf w) in
+  flush_fragment_raw fin w =
+    (inr (if fst (dest_write (rfc_header (pf_header f) ++ pf_payload f) (w_dest w)) then None else Some WDest),
+     with_dest w (snd (dest_write (rfc_header (pf_header f) ++ pf_payload f) (w_dest w))) (w_masks_next w))
+  /\ wf_pframe f.
+Proof. exact flush_fragment_raw_frame. Qed.
+Print Assumptions C06_flush_is_one_frame.
+
+(* WriteThrough makes TWO destination writes, header then payload, together one
+   non-final frame carrying p *)
+Theorem C06_write_through_is_one_frame : forall p w h1, wf_writer w -> wf_bytes p -> len p <= max_int ->
+  w_err w = None -> w_buf w = [] ->
+  set_bits (w_exts w) (mkHeader false 0 (w_opcode w) false zero_mask (Z.of_N (len p))) = Some h1 ->
+  let f := mkPF (mkHeader false (h_rsv h1) (w_opcode w) (client_side (w_state w)) (w_key w) (Z.of_N (len p)))
+                (if client_side (w_state w) then mask_spec p (w_key w) 0 else p) in
+  let '(ok1, d1) := dest_write (rfc_header (pf_header f)) (w_dest w) in
+  let '(ok, d2) := if ok1 then dest_write (pf_payload f) d1 else (false, d1) in
+  write_through p w = ((if ok then len p else 0, if ok then None else Some WDest), wt_result w d2 ok)
+  /\ wf_pframe f.
+Proof. exact write_through_frame. Qed.
+Print Assumptions C06_write_through_is_one_frame.
+
+(* consequently: for EVERY history without Reset (any extensions, any sizes, panics included),
+   with a destination that never fails, the bytes sent form whole frames at every call boundary *)
+Theorem C06_whole_frames_at_every_call : forall ops w,
+  w_op w < 16 -> w_buf w = [] -> Forall wf_key (w_masks w) ->
+  d_calls (w_dest w) = [] -> d_fail_at (w_dest w) = None -> Forall op_wf ops ->
+  aligned_at_ops (steps_of ops (fst (run_wops ops w))) (dest_log (w_dest (snd (run_wops ops w)))) = true /\
+  exists fs, Forall wf_pframe fs /\ frames_of (concat (dest_log (w_dest (snd (run_wops ops w))))) = Some fs.
+Proof. exact fresh_whole_frames. Qed.
+Print Assumptions C06_whole_frames_at_every_call.
+
+(* (C) the full history statement: the monitor c06_monitor (whole frames per call, one
+   well-formed message per final flush carrying exactly the accepted bytes, single frame
+   when the data fits, nothing sent by plain writes with flushing disabled, conservation of
+   the open message) holds of EVERY history over Write/ReadFrom/WriteThrough/FlushFragment/
+   Flush/Grow/DisableFlush from a fresh writer, extensions [] or [c] *)
+Theorem C06_history_monitor : forall ops w0 comp,
+  writer_inv w0 -> fresh_writer w0 -> w_op w0 < 16 -> Forall wf_key (w_masks w0) ->
+  ((w_exts w0 = [] /\ comp = false) \/ w_exts w0 = [comp]) ->
+  Forall c06_op ops -> 28 + 4 * ops_cost ops <= max_int ->
+  c06_monitor (client_side (w_state w0)) (w_op w0) comp (w_buflen w0)
+    (steps_of ops (fst (run_wops ops w0))) (dest_log (w_dest (snd (run_wops ops w0)))) = true.
+Proof. exact c06_monitor_holds. Qed.
+Print Assumptions C06_history_monitor.
+
+(* ... in particular from every constructor (NewWriterBuffer / NewWriterBufferSize / NewWriterSize) *)
+Theorem C06_history_monitor_constructors : forall ops state op n masks exts comp w0,
+  (new_writer_buffer (mkDest [] None) state op n masks = inr w0 \/
+   new_writer_buffer_size (mkDest [] None) state op n masks = inr w0 \/
+   new_writer_size (mkDest [] None) state op n masks = inr w0) ->
+  n + 14 <= max_int -> op < 16 -> Forall wf_key masks ->
+  ((exts = [] /\ comp = false) \/ exts = [comp]) ->
+  Forall c06_op ops -> 28 + 4 * ops_cost ops <= max_int ->
+  let w := set_extensions exts w0 in
+  c06_monitor (client_side state) op comp (w_buflen w)
+    (steps_of ops (fst (run_wops ops w))) (dest_log (w_dest (snd (run_wops ops w)))) = true.
+Proof. exact constructors_c06. Qed.
+Print Assumptions C06_history_monitor_constructors.
